@@ -27,6 +27,9 @@ type SW struct {
 	c      *chain.Chain
 	Files  []*WFile
 	failed bool
+	// ReqProofInterval, when non-zero, is sent as MsgPostFile.ProofInterval by the next PostFile (a client-requested
+	// value; the proof window of a file is the network parameter at post time)
+	ReqProofInterval int64
 }
 
 type WFile struct {
@@ -37,6 +40,7 @@ type WFile struct {
 	MaxProofs int64
 	Expires   int64
 	Size      int64 // size declared on chain
+	Window    int64 // the network's ProofWindow parameter when the file was posted
 }
 
 func (w *WFile) Key() string { return fmt.Sprintf("%x/%s/%d", w.F.Root(), w.OwnerAddr, w.Start) }
@@ -150,8 +154,10 @@ func (s *SW) PostFile(owner int, f *gen.File, maxProofs, expires, declaredSize i
 	if declaredSize >= 0 {
 		size = declaredSize
 	}
+	netWindow := s.c.App.StorageKeeper.GetParams(s.c.Ctx()).ProofWindow
 	r := s.c.DeliverAs(owner, &storagetypes.MsgPostFile{Creator: s.acc(owner).Bech, Merkle: f.Root(), FileSize: size,
-		ProofType: 0, MaxProofs: maxProofs, Expires: expires, Note: "{}"})
+		ProofInterval: s.ReqProofInterval, ProofType: 0, MaxProofs: maxProofs, Expires: expires, Note: "{}"})
+	s.ReqProofInterval = 0
 	if !r.OK() {
 		return nil, r
 	}
@@ -160,7 +166,7 @@ func (s *SW) PostFile(owner int, f *gen.File, maxProofs, expires, declaredSize i
 	if err := r.MsgResponse(0, &resp); err == nil {
 		start = resp.StartBlock
 	}
-	w := &WFile{F: f, Owner: owner, OwnerAddr: s.acc(owner).Bech, Start: start, MaxProofs: maxProofs, Expires: expires, Size: size}
+	w := &WFile{F: f, Owner: owner, OwnerAddr: s.acc(owner).Bech, Start: start, MaxProofs: maxProofs, Expires: expires, Size: size, Window: netWindow}
 	s.Files = append(s.Files, w)
 	return w, r
 }
